@@ -201,7 +201,7 @@ func firstDiffStr(a, b string) string {
 func c13Run(c *core.Ctx) {
 	depth, level := 3, 2
 	if c.Thorough() {
-		depth, level = 4, 2
+		depth, level = 4, 3
 	}
 	for _, fam := range []string{"php7", "php5"} {
 		f := corpus.MustFam(fam)
